@@ -3,6 +3,7 @@ import JumanjiModel.Bridge.Json
 import JumanjiModel.Env.MMST.Model
 import JumanjiModel.Env.MMST.Bounds
 import JumanjiModel.Env.MMST.FeasibleLemmas
+import JumanjiModel.Env.MMST.GenModel
 open Lean Jb
 
 namespace Jb.MMST
@@ -75,8 +76,10 @@ def opState : Op := fun j => do
   pure (jObj [("mask", jBools (makeMask cfg.numAgents s.nodeEdges s.positions s.finished).flatten),
               ("legal", jBools (legalMask cfg s).flatten),
               ("obs", jObs (observe cfg s)),
-              ("feasible", jBool (decide (Feasible cfg s))),
-              ("solution", jBool (decide (IsSolution cfg s))),
+              ("feasible", jBool (decide (Feasible' cfg s))),      -- incl. `RouteWalk` (audit r1, entry 1)
+              ("solution", jBool (decide (IsSolution' cfg s))),
+              ("info_feasible_bookkeeping", jStr (if decide (Feasible cfg s) then "yes" else "no")),
+              ("info_route_walk", jStr (if decide (RouteWalk cfg s) then "yes" else "no")),
               ("info_node_exclusive", jStr (if decide (NodeExclusive cfg s) then "yes" else "no")),
               ("info_flags_fresh", jStr (if decide (FlagsFresh cfg s) then "yes" else "no"))])
 
@@ -110,7 +113,15 @@ def opInstance : Op := fun j => do
               ("graph_connected", jBool (certGraphConnected cfg s)),
               ("start_ok", jBool (certStart cfg s)),
               ("edges_adjacency", jBool (certEdgesAdj cfg s)),
-              ("reset_feasible", jBool (decide (Feasible cfg s))),
+              ("reset_feasible", jBool (decide (Feasible' cfg s))),
+              ("route_len_time_limit", jBool ((List.range cfg.numAgents).all fun i =>
+                  (s.connectedNodes.getD i []).length == cfg.timeLimit)),
+              -- audit r1, entry 7: fresh finished flags at reset (only claimed for K ≥ 2)
+              (if cfg.numNodesPerAgent ≥ 2 then ("flags_fresh", jBool (decide (FlagsFresh cfg s)))
+               else ("info_flags_fresh", jStr (if decide (FlagsFresh cfg s) then "yes" else "no"))),
+              -- C10 (b): the reset state is `SplitRandomGenerator.__call__` replayed on the draws read off it
+              ("generator_draw_valid", jBool (decide (validGenDraw cfg (drawOf s)) && decide (graphOK cfg (drawOf s)))),
+              ("generator_replay", jBool (decide (generate cfg (drawOf s) = s))),
               ("info_degree_le_max_degree_plus_1", jStr (if certDegree cfg s (maxDeg + 1) then "yes" else "no")),
               ("info_edge_count", jInt (edgeCount cfg s))])
 
